@@ -127,7 +127,9 @@ const (
 	sleepAsked = 3 * time.Second
 	sleepBound = 1 * time.Second
 	blockBound = 10 * time.Second
-	runBound   = 20 * time.Second // the run's cancellable contexts are cancelled after this
+	// a call's cancellable context is cancelled this long after its bound was exceeded, so that
+	// an implementation that waits on the context cannot hang the shard
+	cancelSlack = 500 * time.Millisecond
 )
 
 type caseT struct {
@@ -553,12 +555,11 @@ func runScript(p *wasiproxy.Proxy, sc []call, markers [][]byte) runResult {
 	}
 	mem.Write(0, initialImage())
 	shadow := make([]byte, memSize)
-	// cancellable contexts of this run hang off one parent that is cancelled after runBound, so
-	// that an implementation waiting on the context cannot hang the shard
-	parent, cancelParent := context.WithCancel(context.Background())
-	wd := time.AfterFunc(runBound, cancelParent)
-	defer func() { wd.Stop(); cancelParent() }()
+	aborted := false // a call took real time: the rest of the script is not executed
 	step := func(label string, c call) (uint32, wz.Outcome) {
+		if aborted {
+			return 0, wz.Outcome{Kind: wz.KOther, Detail: "not executed"}
+		}
 		for _, w := range c.Mem {
 			b, _ := hex.DecodeString(w.Hex)
 			mem.Write(w.Off, b)
@@ -566,6 +567,12 @@ func runScript(p *wasiproxy.Proxy, sc []call, markers [][]byte) runResult {
 		cur, _ := mem.Read(0, memSize)
 		copy(shadow, cur)
 		asked := requestedSleep(cur, c)
+		limit := blockBound
+		if asked >= sleepAsked {
+			limit = sleepBound
+		}
+		parent, cancelParent := context.WithCancel(context.Background())
+		wd := time.AfterFunc(limit+cancelSlack, cancelParent)
 		cctx, cancel := callCtx(parent, c.Ctx)
 		t0 := time.Now()
 		var errno uint32
@@ -576,7 +583,12 @@ func runScript(p *wasiproxy.Proxy, sc []call, markers [][]byte) runResult {
 			errno, out = p.Call(cctx, c.Fn, c.Args...)
 		}
 		el := time.Since(t0)
+		wd.Stop()
 		cancel()
+		cancelParent()
+		if el >= limit {
+			aborted = true
+		}
 		if asked >= sleepAsked && el >= sleepBound {
 			res.Slow = append(res.Slow, fmt.Sprintf("%s %s (context kind %q) asks for a sleep of %v and took real time (>= %v): the default configuration must not really sleep", label, c.Fn, c.Ctx, asked, sleepBound))
 		} else if el >= blockBound {
@@ -614,6 +626,9 @@ func runScript(p *wasiproxy.Proxy, sc []call, markers [][]byte) runResult {
 	}
 	stdioTouched := false
 	for i, c := range sc {
+		if aborted {
+			break
+		}
 		e, out := step(fmt.Sprintf("#%d", i), c)
 		ok := out.Kind == wz.KOK && e == 0
 		switch c.Fn {
@@ -663,7 +678,7 @@ func runEngine(engine string, sc []call, markers [][]byte, full bool) ([]runResu
 	}
 	out = append(out, runScript(p1, sc, markers))
 	names = append(names, engine+"/runtimeA/instance1")
-	if full {
+	if full && len(out[0].Slow) == 0 {
 		out = append(out, runScript(p2, sc, markers))
 		names = append(names, engine+"/runtimeA/instance2")
 		rtB := wazero.NewRuntimeWithConfig(ctx, wz.Config(engine))
@@ -678,36 +693,27 @@ func runEngine(engine string, sc []call, markers [][]byte, full bool) ([]runResu
 	return out, names, nil
 }
 
-// confirmSlow: a run reported calls that took real time. The script is executed twice more;
-// only a delay that shows up every time is a violation (returned), anything else is load.
-func confirmSlow(engine string, sc []call, markers [][]byte, full bool, first []runResult) (string, error) {
-	msg := ""
-	for _, r := range first {
-		if len(r.Slow) > 0 {
-			msg = r.Slow[0]
-			break
+// runEngineChecked is runEngine with the timing oracle: when a call took real time the run is
+// abandoned and the script executed again, up to 3 times. Only a delay that shows up every
+// time is reported (slow != ""); a loaded machine can delay one call, a real sleep repeats.
+func runEngineChecked(engine string, sc []call, markers [][]byte, full bool) (rs []runResult, names []string, slow string, err error) {
+	for attempt := 0; attempt < 3; attempt++ {
+		if rs, names, err = runEngine(engine, sc, markers, full); err != nil {
+			return nil, nil, "", err
 		}
-	}
-	if msg == "" {
-		return "", nil
-	}
-	for k := 0; k < 2; k++ {
-		rs, _, err := runEngine(engine, sc, markers, full)
-		if err != nil {
-			return "", err
-		}
-		again := false
-		for _, r := range rs {
+		slow = ""
+		for i, r := range rs {
 			if len(r.Slow) > 0 {
-				again = true
+				slow = names[i] + ": " + r.Slow[0]
+				break
 			}
 		}
-		if !again {
-			evid.Label("slow-call-not-repeated", 1)
-			return "", nil
+		if slow == "" {
+			return rs, names, "", nil
 		}
+		evid.Label("run-repeated-because-a-call-took-real-time", 1)
 	}
-	return msg + " (repeated in 3 of 3 executions)", nil
+	return rs, names, slow + " (in 3 of 3 executions)", nil
 }
 
 // lineLabel is the part of a trace line that is a function of the script ("#3 random_get").
@@ -817,16 +823,16 @@ func runLocal(sc []call, markers [][]byte) (ref []string, v *violation, err erro
 	go func() {
 		var d done
 		for _, eng := range wz.Engines {
-			rs, names, err := runEngine(eng, sc, markers, true)
+			rs, names, slow, err := runEngineChecked(eng, sc, markers, true)
 			if err != nil {
 				d.err = err
 				break
 			}
-			if slow, err := confirmSlow(eng, sc, markers, true, rs); err != nil {
-				d.err = err
+			if slow != "" {
+				if d.v == nil {
+					d.v = &violation{slow + " (this process)", ""}
+				}
 				break
-			} else if slow != "" && d.v == nil {
-				d.v = &violation{eng + " in this process: " + slow, ""}
 			}
 			for i, r := range rs {
 				if len(r.Problems) > 0 && d.v == nil {
@@ -846,9 +852,9 @@ func runLocal(sc []call, markers [][]byte) (ref []string, v *violation, err erro
 	select {
 	case d := <-ch:
 		return d.ref, d.v, d.err
-	case <-time.After(150 * time.Second):
+	case <-time.After(60 * time.Second):
 		f := scriptFeatures(sc)
-		return nil, &violation{fmt.Sprintf("the script did not finish within 150 s in this process (asks for long sleeps: %v): the default configuration must not really sleep or block", f.longSleep), ""}, nil
+		return nil, &violation{fmt.Sprintf("the script did not finish within 60 s in this process (asks for long sleeps: %v): the default configuration must not really sleep or block", f.longSleep), ""}, nil
 	}
 }
 
@@ -1000,15 +1006,12 @@ func TestChild(t *testing.T) {
 	now := time.Now()
 	co.Info = map[string]string{"tz": os.Getenv("TZ"), "local": now.Format(time.RFC3339Nano), "env": fmt.Sprint(len(os.Environ())), "args": fmt.Sprint(len(os.Args)), "markers": fmt.Sprint(len(markers))}
 	for _, eng := range wz.Engines {
-		rs, _, err := runEngine(eng, sc, markers, false)
+		rs, _, slow, err := runEngineChecked(eng, sc, markers, false)
 		if err != nil {
 			co.Error = err.Error()
 			return
 		}
-		if slow, err := confirmSlow(eng, sc, markers, false, rs); err != nil {
-			co.Error = err.Error()
-			return
-		} else if slow != "" {
+		if slow != "" {
 			rs[0].Problems = append(rs[0].Problems, slow)
 		}
 		rs[0].Slow = nil
